@@ -11,7 +11,7 @@ import time
 
 VERIF = os.path.dirname(os.path.dirname(os.path.abspath(__file__)))
 REPO = os.environ.get("VERIF_REPO", "/repo")
-BUILD = os.path.join(VERIF, "build")
+BUILD = os.environ.get("VERIF_BUILD", os.path.join(VERIF, "build"))
 SPEC = os.path.join(VERIF, "spec")
 JAR = "/opt/veriftools/tla/tla2tools.jar:/opt/veriftools/tla/CommunityModules-deps.jar"
 NCPU = os.cpu_count() or 8
@@ -27,7 +27,13 @@ def log(*a):
 
 # ----------------------------------------------------------------------------- build
 def _drivers():
-    return json.load(open(os.path.join(VERIF, "harness", "drivers", "BUILD.json")))
+    """every harness/drivers/*.build.json contributes {target: {srcs, repo_srcs, protos, flags, libs, opt, no_interpose, no_core}}"""
+    d = {}
+    dd = os.path.join(VERIF, "harness", "drivers")
+    for f in sorted(os.listdir(dd)):
+        if f.endswith(".build.json"):
+            d.update(json.load(open(os.path.join(dd, f))))
+    return d
 
 
 def write_ninja():
@@ -322,6 +328,80 @@ def parse_verif(out):
         return None
     pairs = re.findall(r'<<"(\w+)",\s*"(\w+)">>', m.group(3))
     return int(m.group(1)), int(m.group(2)), pairs
+
+
+class TraceIssue:
+    def __init__(self, exec_index, kind, detail, line):
+        self.exec_index = exec_index  # index into the list of executions given to check_traces
+        self.kind = kind              # "invariant:<name>" | "rejected" | "error"
+        self.detail = detail
+        self.line = line              # line (1-based, within the concatenated file of that round)
+
+
+def _last_l(error_trace):
+    m = re.findall(r"/\\ l = (\d+)", error_trace)
+    return int(m[-1]) if m else None
+
+
+def check_traces(tla, cfg, execs, name, max_rounds=3, timeout=1800, env=None):
+    """Validate executions (each a list of normalised event dicts, starting with a reset line)
+    against a trace specification.  Returns (n_accepted, issues, stats).  After a rejected or
+    violating execution the remaining ones are still checked."""
+    issues = []
+    accepted = 0
+    stats = {"states": 0, "wall": 0.0, "rounds": 0, "pairs": set()}
+    offset = 0
+    todo = list(execs)
+    os.makedirs(os.path.join(BUILD, "traces"), exist_ok=True)
+    while todo and stats["rounds"] < max_rounds:
+        stats["rounds"] += 1
+        path = os.path.join(BUILD, "traces", "%s.%d.ndjson" % (name, os.getpid()))
+        starts = []
+        n = 0
+        with open(path, "w") as f:
+            for ex in todo:
+                starts.append(n + 1)
+                for e in ex:
+                    f.write(json.dumps(e, separators=(",", ":")) + "\n")
+                n += len(ex)
+        r = validate_trace(tla, cfg, path, extra_env=env, timeout=timeout)
+        stats["states"] += r.distinct
+        stats["wall"] += r.wall
+        pv = parse_verif(r.out)
+        if pv:
+            stats["pairs"].update(pv[2])
+        try:
+            os.unlink(path)
+        except OSError:
+            pass
+        if r.ok and pv and pv[0] >= pv[1]:
+            accepted += len(todo)
+            todo = []
+            break
+        # locate the failing line
+        if r.violation and r.violation not in ("tlc_error", "timeout", "postcondition"):
+            line = _last_l(r.error_trace) or 1
+            line = max(1, line - 1)  # l points at the next line to explain; the offending event is the previous one
+            kind = "invariant:" + r.violation
+            k = r.error_trace.rfind("\nState ")
+            detail = r.error_trace[k:] if k >= 0 else r.error_trace[-6000:]
+        elif pv:
+            line = min(pv[0] + 1, n)
+            kind = "rejected"
+            detail = "explained %d of %d lines" % (pv[0], pv[1])
+        else:
+            raise Broken("trace validation of %s failed: %s" % (name, (r.error_trace or r.out)[-3000:]))
+        j = 0
+        for idx, st in enumerate(starts):
+            if st <= line:
+                j = idx
+        issues.append(TraceIssue(offset + j, kind, detail, line - starts[j] + 1))
+        accepted += j
+        offset += j + 1
+        todo = todo[j + 1:]
+    stats["pairs"] = sorted(stats["pairs"])
+    stats["unchecked"] = len(todo)
+    return accepted, issues, stats
 
 
 # ----------------------------------------------------------------------------- verdicts / evidence
